@@ -275,7 +275,7 @@ func c06Run(r *fw.R, d c06Desc) {
 
 // (A) local Close against an echoing raw peer
 func c06Local(r *fw.R, d c06Desc, code, rl int) {
-	c, _, peerEnd, err := libConn(d.Role, wire.Params{}, 0, xport.Plan{}, xport.Plan{})
+	c, _, peerEnd, err := libConn(d.Role, wire.Params{}, 0, xport.Plan{}, c06PeerPlan(d.Seed))
 	if err != nil {
 		r.Violate("C06/attach-failed", err.Error(), "")
 		return
@@ -369,7 +369,7 @@ func c06PostClose(r *fw.R, c *websocket.Conn, what string) {
 
 // (B) peer initiated close
 func c06Peer(r *fw.R, d c06Desc, code, rl int) {
-	c, _, peerEnd, err := libConn(d.Role, wire.Params{}, 0, xport.Plan{}, xport.Plan{})
+	c, _, peerEnd, err := libConn(d.Role, wire.Params{}, 0, xport.Plan{}, c06PeerPlan(d.Seed))
 	if err != nil {
 		r.Violate("C06/attach-failed", err.Error(), "")
 		return
@@ -514,7 +514,7 @@ func c06PostCloseNoClose(r *fw.R, c *websocket.Conn, what string) {
 
 // (C) library to library
 func c06LibPair(r *fw.R, d c06Desc, code, rl int) {
-	a, b := xport.Pair(xport.Plan{}, xport.Plan{})
+	a, b := xport.Pair(xport.Plan{}, c06PeerPlan(d.Seed))
 	var closer, other *websocket.Conn
 	var err1, err2 error
 	ctx, cancel := context.WithTimeout(context.Background(), 30*time.Second)
@@ -621,7 +621,7 @@ func c06LocalHalfRead(r *fw.R, d c06Desc, iter int) {
 	if compressed {
 		p = wire.Params{Deflate: true, ClientNoCtx: iter%2 == 0}
 	}
-	c, _, peerEnd, err := libConn(d.Role, p, 0, xport.Plan{}, xport.Plan{})
+	c, _, peerEnd, err := libConn(d.Role, p, 0, xport.Plan{}, c06PeerPlan(d.Seed))
 	if err != nil {
 		r.Violate("C06/attach-failed", err.Error(), "")
 		return
@@ -688,7 +688,7 @@ func c06LocalHalfRead(r *fw.R, d c06Desc, iter int) {
 // (A') Close with a reader goroutine active on the same connection. The peer
 // echoes the code; Close must return nil whichever goroutine reads the echo.
 func c06LocalActiveReader(r *fw.R, d c06Desc, iter int) {
-	c, _, peerEnd, err := libConn(d.Role, wire.Params{}, 0, xport.Plan{}, xport.Plan{})
+	c, _, peerEnd, err := libConn(d.Role, wire.Params{}, 0, xport.Plan{}, c06PeerPlan(d.Seed))
 	if err != nil {
 		r.Violate("C06/attach-failed", err.Error(), "")
 		return
@@ -746,7 +746,7 @@ func attachServer(t net.Conn) (*websocket.Conn, any, error) {
 
 // (D) operations after closure by various causes
 func c06AfterClosed(r *fw.R, d c06Desc) {
-	c, _, peerEnd, err := libConn(d.Role, wire.Params{}, 0, xport.Plan{}, xport.Plan{})
+	c, _, peerEnd, err := libConn(d.Role, wire.Params{}, 0, xport.Plan{}, c06PeerPlan(d.Seed))
 	if err != nil {
 		r.Violate("C06/attach-failed", err.Error(), "")
 		return
@@ -808,7 +808,7 @@ func c06AfterClosed(r *fw.R, d c06Desc) {
 }
 
 func c06Orders(r *fw.R, d c06Desc) {
-	c, _, peerEnd, err := libConn(d.Role, wire.Params{}, 0, xport.Plan{}, xport.Plan{})
+	c, _, peerEnd, err := libConn(d.Role, wire.Params{}, 0, xport.Plan{}, c06PeerPlan(d.Seed))
 	if err != nil {
 		r.Violate("C06/attach-failed", err.Error(), "")
 		return
@@ -854,4 +854,10 @@ func c06Orders(r *fw.R, d c06Desc) {
 			r.Violate("C06/first-close-error", fmt.Sprintf("%s order %s: the first call returned %v against an echoing peer", d.Role, d.Order, e), "")
 		}
 	}
+}
+
+// c06PeerPlan: what the peer sends reaches the library in one piece, byte by byte, or in pieces of up to 5 / 40
+// bytes (a Close frame's payload may arrive in several transport reads).
+func c06PeerPlan(seed uint64) xport.Plan {
+	return xport.Plan{Seed: seed | 1, ReadMax: []int{0, 0, 1, 5, 40}[seed%5]}
 }
